@@ -81,6 +81,7 @@ def build(seed, i, tier):
             used[hrid[h]].append(hpaths[h])
         plan.append(tp)
     progs = []
+    nested_ctx = rs.random() < 0.15
     for tp in plan:
         ops = []
         for h in tp:
@@ -92,7 +93,10 @@ def build(seed, i, tier):
                     break
             else:
                 name, args = ("setitem", ["x", fresh.int()]) if k == "dict" else ("append", [fresh.int()])
-            ops.append({"h": h, "name": name, "args": args})
+            op_ = {"h": h, "name": name, "args": args}
+            if nested_ctx and rs.random() < 0.4:
+                op_["wrap"] = "backend"     # the thread enters and leaves its own nested buffer_backend() around this operation
+            ops.append(op_)
         progs.append(ops)
     # optional READER thread on a file (and object) that no other thread uses (C13 allows exactly these reads); with a small
     # capacity its first buffered access forces the flush of the files the other threads are modifying
